@@ -332,7 +332,7 @@ def render_pipe(pipe, probes=False):
 ATOMS = [0, 1, 2, 3, 7, 'a', 'b', 'xy', 'q r', True, False, None]
 STEP_KINDS = ['append_in', 'append_ctx', 'add', 'add_in', 'set', 'setf', 'set_ff', 'default', 'merge',
               'contextcopy', 'py_append', 'py_extend', 'py_dictset', 'py_add', 'py_alias', 'py_in',
-              'configvars', 'foreach', 'retry', 'pype_parent', 'pype_child']
+              'configvars', 'foreach', 'retry', 'while', 'pype_parent', 'pype_child']
 
 
 def gen_atom(rng):
@@ -413,7 +413,7 @@ class Emit:
         self.shadow[dst] = self.shadow[src]
 
     # -- steps ----------------------------------------------------------------------------
-    def step(self, name, inargs, body, foreach=None, retry=None, retry_fail_until=0):
+    def step(self, name, inargs, body, foreach=None, retry=None, retry_fail_until=0, while_max=None):
         steps = self.gen.pipes[self.pipe]['steps']
         idx = len(steps)
         st = {'name': name}
@@ -423,6 +423,8 @@ class Emit:
             st['foreach'] = foreach
         if retry is not None:
             st['retry'] = retry
+        if while_max is not None:
+            st['while'] = {'max': while_max}
         steps.append(st)
         for k, v in inargs.items():
             self.op({'o': 'inCopy', 'key': k, 'src': {'defn': self.pipe, 'path': ['steps', idx, 'in', k]}})
@@ -436,6 +438,11 @@ class Emit:
             self.set_key('retryCounter', 0)
             for n in range(1, retry_fail_until + 1):
                 self.set_key('retryCounter', n)
+                body()
+                self.obs()
+        elif while_max is not None:
+            for n in range(1, while_max + 1):
+                self.set_key('whileCounter', n)
                 body()
                 self.obs()
         else:
@@ -644,6 +651,14 @@ class Emit:
             code = f"{K}.append(retryCounter)\nif retryCounter < {until}:\n    raise ValueError('again')"
             self.step('pypyr.steps.py', {'py': code}, lambda: self.append([K], self.shadow['retryCounter']),
                       retry=retry, retry_fail_until=until)
+        elif kind == 'while':
+            cands = [p for p in lists if len(p) == 1]
+            if not cands:
+                return self.emit('append_ctx')
+            K = rng.choice(cands)[0]
+            W = gen_val(rng, 1, 'list')
+            self.step('pypyr.steps.py', {'py': f"{K}.append([whileCounter] + {py_lit(W)})"},
+                      lambda: self.append([K], [self.shadow['whileCounter']] + W), while_max=rng.randint(1, 3))
         elif kind == 'pype_parent':
             if self.depth > 0:
                 return self.emit('set')
